@@ -458,6 +458,10 @@ def normalize_youtube_url(url):
         if parsed.id is not None:
             return YOUTUBE_CHANNEL_ID_URL_TEMPLATE % parsed.id
 
+        # NOTE: a channel named like a route of the site only exists as /c/<name>
+        if parsed.name in YOUTUBE_CHANNEL_NAME_BLACKLIST:
+            return YOUTUBE_CHANNEL_NAME_URL_TEMPLATE % ("c/" + parsed.name)
+
         return YOUTUBE_CHANNEL_NAME_URL_TEMPLATE % parsed.name
 
     if isinstance(parsed, YoutubeShort):
